@@ -149,6 +149,27 @@ __CPROVER_ensures(cv_words[0] == SPEC_LOAD32(bytes_out, 0) && cv_words[1] == SPE
   __CPROVER_requires(__CPROVER_r_ok(key, 32))                                            \
   __CPROVER_requires(num_inputs == 0 || __CPROVER_w_ok(out, 32 * num_inputs))
 
+/* *_fn: output i (32 bytes) is an uninterpreted function of the WHOLE row i (64*blocks bytes, for
+ * blocks <= 16: the only values blake3.c uses are 1 and 16), the 8 key words, counter (+ i iff
+ * increment_counter), flags, flags_start, flags_end and blocks; every output byte via the witness */
+#define ROW_DISJ(inputs, n, i, sz, out) ((n) > (i) ==> VERIF_DISJ(out, 32 * (n), (inputs)[i], sz))
+#define ROWS16_DISJ(inputs, n, sz, out)                                                  \
+  (ROW_DISJ(inputs, n, 0, sz, out) && ROW_DISJ(inputs, n, 1, sz, out) && ROW_DISJ(inputs, n, 2, sz, out) && \
+   ROW_DISJ(inputs, n, 3, sz, out) && ROW_DISJ(inputs, n, 4, sz, out) && ROW_DISJ(inputs, n, 5, sz, out) && \
+   ROW_DISJ(inputs, n, 6, sz, out) && ROW_DISJ(inputs, n, 7, sz, out) && ROW_DISJ(inputs, n, 8, sz, out) && \
+   ROW_DISJ(inputs, n, 9, sz, out) && ROW_DISJ(inputs, n, 10, sz, out) && ROW_DISJ(inputs, n, 11, sz, out) && \
+   ROW_DISJ(inputs, n, 12, sz, out) && ROW_DISJ(inputs, n, 13, sz, out) && ROW_DISJ(inputs, n, 14, sz, out) && \
+   ROW_DISJ(inputs, n, 15, sz, out))
+#define VERIF_HM_ROW_BYTE(inputs, blocks, key, counter, inc, flags, fs, fe, i, j)        \
+  VBYTE(VERIF_UF_ROW((inputs)[i], blocks, key, (counter) + ((inc) ? (uint64_t)(i) : (uint64_t)0), flags, fs, fe), j)
+#define HASH_MANY_FN                                                                     \
+  FN(__CPROVER_requires(num_inputs == 0 ||                                               \
+       (ROWS16_DISJ(inputs, num_inputs, 64 * blocks, out) && VERIF_DISJ(out, 32 * num_inputs, key, 32) && \
+        VERIF_DISJ(out, 32 * num_inputs, inputs, num_inputs * sizeof(const uint8_t *))))) \
+  FN(__CPROVER_ensures((blocks <= 16 && VW_IN(out, 32 * num_inputs)) ==>                 \
+       VW_AT(out) == VERIF_HM_ROW_BYTE(inputs, blocks, key, counter, increment_counter, flags, \
+                                       flags_start, flags_end, VW_IDX(out) / 32, VW_IDX(out) % 32)))
+
 /* ---- portable kernels (bodies verified in their own units) -------------------------- */
 void blake3_compress_in_place_portable(uint32_t cv[8], const uint8_t block[BLAKE3_BLOCK_LEN],
                                        uint8_t block_len, uint64_t counter, uint8_t flags)
@@ -181,6 +202,7 @@ void blake3_hash_many_portable(const uint8_t *const *inputs, size_t num_inputs, 
                                uint8_t *out)
 HASH_MANY_REQUIRES
 __CPROVER_assigns(num_inputs > 0: __CPROVER_object_upto(out, 32 * num_inputs))
+HASH_MANY_FN
 ;
 
 /* ---- SIMD kernels: ASSUMED frame contracts (asm / intrinsics are not analysed) ------- */
@@ -203,6 +225,7 @@ void blake3_hash_many_sse2(const uint8_t *const *inputs, size_t num_inputs, size
                            uint8_t flags, uint8_t flags_start, uint8_t flags_end, uint8_t *out)
 HASH_MANY_REQUIRES
 __CPROVER_assigns(num_inputs > 0: __CPROVER_object_upto(out, 32 * num_inputs))
+HASH_MANY_FN
 ;
 #endif
 #if !defined(BLAKE3_NO_SSE41)
@@ -223,6 +246,7 @@ void blake3_hash_many_sse41(const uint8_t *const *inputs, size_t num_inputs, siz
                             uint8_t flags, uint8_t flags_start, uint8_t flags_end, uint8_t *out)
 HASH_MANY_REQUIRES
 __CPROVER_assigns(num_inputs > 0: __CPROVER_object_upto(out, 32 * num_inputs))
+HASH_MANY_FN
 ;
 #endif
 #if !defined(BLAKE3_NO_AVX2)
@@ -231,6 +255,7 @@ void blake3_hash_many_avx2(const uint8_t *const *inputs, size_t num_inputs, size
                            uint8_t flags, uint8_t flags_start, uint8_t flags_end, uint8_t *out)
 HASH_MANY_REQUIRES
 __CPROVER_assigns(num_inputs > 0: __CPROVER_object_upto(out, 32 * num_inputs))
+HASH_MANY_FN
 ;
 #endif
 #if !defined(BLAKE3_NO_AVX512)
@@ -251,6 +276,7 @@ void blake3_hash_many_avx512(const uint8_t *const *inputs, size_t num_inputs, si
                              uint8_t flags, uint8_t flags_start, uint8_t flags_end, uint8_t *out)
 HASH_MANY_REQUIRES
 __CPROVER_assigns(num_inputs > 0: __CPROVER_object_upto(out, 32 * num_inputs))
+HASH_MANY_FN
 ;
 #if !defined(_WIN32) && !defined(__CYGWIN__)
 /* the assembly "always outputs at least 1 block": outblocks >= 1 is part of its contract */
@@ -357,6 +383,7 @@ HASH_MANY_REQUIRES
 __CPROVER_requires(VERIF_GCPU_OK)
 __CPROVER_assigns(num_inputs > 0: __CPROVER_object_upto(out, 32 * num_inputs); g_cpu_features)
 __CPROVER_ensures(VERIF_GCPU_OK)
+HASH_MANY_FN
 ;
 
 /* ===================================================================================== */
